@@ -73,20 +73,63 @@ def gen_case(rng):
         l = list(l)
         rng.shuffle(l)
         return l
-    dup = []
-    for e in can:
-        v = float.fromhex(e[2])
-        if rng.random() < 0.5:
-            a = math.floor(v / 2) if kind in ("int", "big") else v / 2
-            if a != 0 and v - a != 0:
-                dup += [[e[0], e[1], hexf(a)], [e[0], e[1], hexf(v - a)]]
-                continue
-        dup.append(e)
+    def split(v, allow_zero):
+        """v as 2 or 3 stored parts for the same coordinate (their sum is v exactly, or to 1 ulp for the float kinds)"""
+        k = rng.choice([2, 2, 3])
+        if kind in ("int", "big"):
+            lo = 0 if allow_zero else 1
+            if v < k * lo or (v < 2 and not allow_zero):
+                return None
+            a = rng.randint(lo, int(v) - (k - 1) * lo)
+            parts = [a]
+            if k == 3:
+                b = rng.randint(lo, int(v) - a - lo)
+                parts.append(b)
+            parts.append(int(v) - sum(parts))
+            return [float(x) for x in parts]
+        if k == 2:
+            a = v / 2 if rng.random() < 0.5 else v * rng.uniform(0.1, 0.9)
+            parts = [a, v - a]
+        else:
+            parts = [v / 4, v / 4, v - v / 2]
+        if allow_zero and rng.random() < 0.3:
+            parts.append(0.0)
+        return parts if all(x > 0 or (allow_zero and x == 0) for x in parts) else None
+
+    def with_dups(entries, allow_zero):
+        parts_of = {}
+        for idx, e in enumerate(entries):
+            v = float.fromhex(e[2])
+            parts = split(v, allow_zero) if rng.random() < 0.5 and v != 0 else None
+            if parts is None and allow_zero and rng.random() < 0.3:
+                parts = [v, 0.0] if rng.random() < 0.5 else [0.0, v]       # a stored zero on top of a stored value (or of a stored zero)
+            if parts:
+                parts_of[idx] = parts
+        if not parts_of:                                                   # at least one repeated coordinate whenever some value can be split
+            for idx, e in enumerate(entries):
+                parts = split(float.fromhex(e[2]), allow_zero) if float.fromhex(e[2]) != 0 else None
+                if parts:
+                    parts_of[idx] = parts
+                    break
+        out = []
+        for idx, e in enumerate(entries):
+            out += [[e[0], e[1], hexf(x)] for x in parts_of[idx]] if idx in parts_of else [e]
+        return out, len(parts_of)
+    dup, n_dup = with_dups(can, False)            # repeated coordinates, every stored value non-zero
+    dupz, n_dupz = with_dups(can + ez, True)      # repeated coordinates + explicit zeros (also repeated, also on top of a value)
+    by_col = lambda l: sorted(l, key=lambda e: (e[1], e[0]))
     encs = [{"fmt": "csr", "entries": can}, {"fmt": "csc", "entries": can}, {"fmt": "coo", "entries": shuffled(can)},
             {"fmt": "coo_dup", "entries": shuffled(dup)}, {"fmt": "csc_unsorted", "entries": shuffled(can)},
             {"fmt": "csr_unsorted", "entries": shuffled(can)}, {"fmt": "csc_explicit_zeros", "entries": shuffled(can + ez)},
             {"fmt": "csr_explicit_zeros", "entries": shuffled(can + ez)}, {"fmt": "lil", "entries": can},
-            {"fmt": "dense", "entries": can}]
+            {"fmt": "dense", "entries": can},
+            # non-canonical storage: the same (row, column) stored more than once (has_canonical_format False)
+            {"fmt": "csr_dup", "entries": shuffled(dup)},                      # 10: CSR, duplicates, unsorted column indices
+            {"fmt": "csc_dup_unsorted", "entries": shuffled(dup)},             # 11: CSC, duplicates, unsorted row indices
+            {"fmt": "csc_dup_explicit_zeros", "entries": shuffled(dupz)},      # 12: CSC, duplicates + explicit zeros, unsorted
+            {"fmt": "csr_dup_explicit_zeros", "entries": shuffled(dupz)},      # 13
+            {"fmt": "csc_dup_sorted", "entries": by_col(dup)},                 # 14: sorted indices, yet not canonical
+            {"fmt": "coo_dup_explicit_zeros", "entries": shuffled(dupz)}]      # 15
     other = entries_of(gen_matrix(rng, n, m, "float", 0.6))
     rp, cp = list(range(n)), list(range(m))
     rng.shuffle(rp)
@@ -94,10 +137,7 @@ def gen_case(rng):
     case = {"kind": "matrix", "n": n, "m": m, "shape": shape, "values": kind, "M": [[hexf(v) for v in r] for r in M], "encodings": encs,
             "s": hexf(rng.choice([1e-4, 0.1, 0.1, 1.0, 50.0, rng.uniform(0.001, 10)])), "power": hexf(rng.choice([0.5, 1.0, 2.0, 2.0, 3.3])),
             "approx": rng.random() < 0.4, "other": other, "lin": [hexf(rng.uniform(-2, 3)), hexf(rng.uniform(-2, 3))],
-            "row_perm": rp, "col_perm": cp, "dup_stream": None}
-    if len(dup) > len(can) and rng.random() < 0.5:
-        # non-canonical CSR with duplicate entries: valid scipy matrix, not in the property's quantifier list -> known finding stream
-        case["dup_stream"] = {"fmt": "csr_dup", "entries": dup}
+            "row_perm": rp, "col_perm": cp, "n_dup_coords": [n_dup, n_dupz]}
     return case
 
 
@@ -141,10 +181,11 @@ def coq_cols(case, enc):
     return "[" + "; ".join("[" + "; ".join(c) + "]" for c in cols) + "]"
 
 
-def raw_weights(case, res):
-    """the implementation's raw information weights that InformationWeightTransformer.fit post-processes (canonical CSR)"""
+def raw_weights(case, res, e=0):
+    """the implementation's raw information weights that InformationWeightTransformer.fit post-processes (canonical CSR; encoding 12
+    for the transformer fitted on the duplicate-entry CSC input: the approximate prior counts stored entries, explicit zeros included)"""
     try:
-        w = res["enc"][0]["approx" if case["approx"] else "exact"]
+        w = res["enc"][e]["approx" if case["approx"] else "exact"]
         return None if isinstance(w, dict) or any(h in ("nan", "inf", "-inf") for h in w) else w
     except Exception:  # noqa
         return None
@@ -158,15 +199,21 @@ def coq_case(case, res):
     iw = lambda approx, enc: "information_weight float F %s %d%%nat %s %s" % ("true" if approx else "false", n, coq_cols(case, enc), s)
     raw = raw_weights(case, res)
     rawl = "[" + "; ".join(fcoq(h) for h in raw) + "]" if raw else "unopt (%s)" % iw(case["approx"], e[1])
-    return ("let F := F_ops 0 in (outs (%s), outs (%s), outs (%s), outs (%s), map out (finish_weights float F f_pow %s %s))"
-            % (iw(False, e[1]), iw(False, e[4]), iw(False, e[6]), iw(True, e[1]), rawl, p))
+    dup_part = ""
+    if len(e) > 12:      # (replays of cases recorded before the duplicate encodings existed have 10 encodings)
+        dup_part = ", outs (%s), outs (%s), outs (%s)" % (iw(False, e[10]), iw(False, e[12]), iw(True, e[11]))
+    return ("let F := F_ops 0 in (outs (%s), outs (%s), outs (%s), outs (%s), map out (finish_weights float F f_pow %s %s)%s)"
+            % (iw(False, e[1]), iw(False, e[4]), iw(False, e[6]), iw(True, e[1]), rawl, p, dup_part))
 
 
 def model_value(v):
     def ol(l):
         return [None if o is None else sf2float(o[1]) for o in l]
-    return {"exact_csc": ol(v[0]), "exact_unsorted": ol(v[1]), "exact_explicit_zeros": ol(v[2]), "approx": ol(v[3]),
-            "finished": [sf2float(x) for x in v[4]]}
+    mv = {"exact_csc": ol(v[0]), "exact_unsorted": ol(v[1]), "exact_explicit_zeros": ol(v[2]), "approx": ol(v[3]),
+          "finished": [sf2float(x) for x in v[4]]}
+    if len(v) > 5:
+        mv.update({"exact_csr_dup": ol(v[5]), "exact_csc_dup_explicit_zeros": ol(v[6]), "approx_csc_dup": ol(v[7])})
+    return mv
 
 
 # ------------------------------------------------------------------ oracle
@@ -203,6 +250,8 @@ def oracle(case, res):
                 bad.append("weight of column %d on the %s encoding is negative: %r" % (j, name, a))
             elif not close(a, d, TOL["rel"], TOL["abs"]):
                 bad.append("weight of column %d on the %s encoding is %r, the KL divergence from the definition is %r" % (j, name, a, d))
+        if r.get("caller_modified"):
+            notes.setdefault("caller_modified", []).append("%s: %s" % (name, "; ".join(r["caller_modified"])))
         ap = vec(r["approx"])
         if isinstance(ap, dict):
             bad.append("information_weight(approximate_prior=True) on the %s encoding raised %s" % (name, ap["err"]))
@@ -220,8 +269,10 @@ def oracle(case, res):
     if "err" in t:
         bad.append("InformationWeightTransformer raised %s: %s" % (t["err"]["err"], t["err"]["msg"]))
     else:
-        for name in ("sparse", "dense"):
+        for name in [k for k in ("sparse", "dense", "dup") if k in t]:
             r = t[name]
+            if r.get("caller_modified"):
+                notes.setdefault("caller_modified", []).append("transformer(%s input): %s" % (name, "; ".join(r["caller_modified"])))
             w = [fl(h) for h in r["w"]]
             tag = "transformer(%s input)" % name
             if any(x != x for x in w):
@@ -233,7 +284,7 @@ def oracle(case, res):
                 continue
             if r["w_after_transform"] != r["w"]:
                 bad.append("%s: transform changed the learned weights" % tag)
-            raw = raw_weights(case, res)
+            raw = raw_weights(case, res, 12 if name == "dup" else 0)
             if raw is not None and not degenerate:
                 fd = finish_definition([fl(h) for h in raw], p)
                 if any(not close(a, d, TOL["rel"], TOL["abs"]) for a, d in zip(w, fd)):
@@ -271,25 +322,17 @@ def oracle(case, res):
     return bad, known, notes
 
 
-def oracle_dup(case, r):
-    """non-canonical CSR with duplicate entries (known finding stream)"""
-    M = [[float.fromhex(h) for h in row] for row in case["M"]]
-    ref = definition(M, float.fromhex(case["s"]))
-    w = vec(r["exact"])
-    if isinstance(w, dict):
-        return ["raised %s" % w["err"]]
-    return ["column %d: weight %r, definition on the summed matrix %r" % (j, a, d)
-            for j, (a, d) in enumerate(zip(w, ref)) if not (math.isfinite(a) and a >= -TOL["nonneg_slack"] and close(a, d, TOL["rel"], TOL["abs"]))]
-
-
 # ------------------------------------------------------------------ correspondence
 
 def correspondence(case, res, m, notes):
     bad = []
     if "err" in res:
         return bad
-    pairs = [("exact_csc", 1, "exact"), ("exact_unsorted", 4, "exact"), ("exact_explicit_zeros", 6, "exact"), ("approx", 1, "approx")]
+    pairs = [("exact_csc", 1, "exact"), ("exact_unsorted", 4, "exact"), ("exact_explicit_zeros", 6, "exact"), ("approx", 1, "approx"),
+             ("exact_csr_dup", 10, "exact"), ("exact_csc_dup_explicit_zeros", 12, "exact"), ("approx_csc_dup", 11, "approx")]
     for key, e, which in pairs:
+        if key not in m:
+            continue
         w = vec(res["enc"][e][which])
         if isinstance(w, dict):
             bad.append("%s: impl raised %s, model %r" % (key, w["err"], m[key]))
@@ -331,8 +374,9 @@ def run(ctx, replay=None):
     ncases = 220 if ctx.quick else 1800
     cases = [replay["case"]] if replay else [gen_case(ctx.rng) for _ in range(ncases)]
     ctx.coverage["rule"] = ("seeded random non-negative count matrices (1-7 rows, 1-5 columns; small integers, floats over 6 decades, counts up to 1e6; random, rank-1, "
-                            "empty row+column, single non-empty cell), each in 10 encodings (canonical CSR / CSC, shuffled COO, COO with duplicate coordinates, CSC and CSR with "
-                            "unsorted indices, CSC and CSR with explicit zeros + unsorted, LIL, ndarray), random prior_strength / weight_power / approx flag, a row and a column "
+                            "empty row+column, single non-empty cell), each in 16 encodings (canonical CSR / CSC, shuffled COO, COO with duplicate coordinates, CSC and CSR with "
+                            "unsorted indices, CSC and CSR with explicit zeros + unsorted, LIL, ndarray; CSR / CSC / COO storing a coordinate 2-4 times: unsorted, sorted-but-not-canonical, "
+                            "combined with explicit zeros incl. repeated zeros and a zero on top of a value), random prior_strength / weight_power / approx flag, a row and a column "
                             "permutation, a second matrix and two scalars for linearity; non-trivial = every case; distinct by case hash")
     ctx.coverage["tolerances"] = TOL
     ctx.assumptions += [
@@ -340,8 +384,9 @@ def run(ctx, replay=None):
         "ln / exp / pow of the executed model are Gallina series (Model/K12_Float.v, Model/K13_Float.v), checked against libm on every run",
         "finished (mean-normalised) weights are only compared when some column carries information (max raw weight >= 1e-9): otherwise the mean is rounding noise",
         "supervised weights (target=...) are not modelled; the approximate prior is modelled and compared on the canonical encoding only (it counts stored entries)",
-        "matrices in CSR/CSC with duplicate (row, column) entries are a separate stream reported as a known finding"]
-    out, info = C.run_impl("c17", {"cases": [dict(c, encodings=c["encodings"] + ([c["dup_stream"]] if c.get("dup_stream") else [])) for c in cases]})
+        "duplicate (row, column) entries denote the sum of the stored values (scipy's meaning); float parts may sum to the generated value only to 1 ulp, far inside the tolerance",
+        "every information_weight / fit call is made on the caller's own object and its arrays are compared bytewise before/after (the C13 guarantee kept by the duplicate-entry repair)"]
+    out, info = C.run_impl("c17", {"cases": cases})
     results = (out or {}).get("results", [])
     if out is None or len(results) != len(cases):
         done = len(results)
@@ -350,17 +395,12 @@ def run(ctx, replay=None):
         results = results + [{"err": "crash"}] * (len(cases) - done)
     check_transcendentals(ctx)
     models = [model_value(v) for v in C.coq_eval_sharded("C17", HEADER, [coq_case(c, r) for c, r in zip(cases, results)], 60)]
-    n_corr, corr_bad, n_bad, n_deg, n_dup = 0, [], 0, 0, 0
+    n_corr, corr_bad, n_bad, n_deg, n_dup, n_mut = 0, [], 0, 0, 0, 0
     for c, r, m in zip(cases, results, models):
         ctx.count_case(c, nontrivial=True, kind=kind_of(c))
         bad, known, notes = oracle(c, r)
         n_deg += bool(notes.get("degenerate"))
-        if c.get("dup_stream") and "enc" in r:
-            n_dup += 1
-            d = oracle_dup(c, r["enc"][len(c["encodings"])])
-            if d:
-                ctx.report("CSR with duplicate entries: " + "; ".join(d[:3]), {"stage": "oracle", "case": c, "failures": d[:10]},
-                           finding_key="noncanonical-duplicate-entries")
+        n_dup += bool(sum(c.get("n_dup_coords", [0])))
         if known:
             ctx.report("; ".join(known[:3]), {"stage": "oracle", "case": c, "failures": known[:10]}, finding_key="transformer-zero-mean-weights")
         if bad:
@@ -368,13 +408,20 @@ def run(ctx, replay=None):
             ctx.report("property fails on the implementation: " + "; ".join(bad[:4]),
                        {"stage": "oracle", "case": c, "failures": bad[:12], "actual": r})
             continue
+        if notes.get("caller_modified"):
+            # not part of C17's statement (it is C13's): reported without claiming a C17-level failing input
+            n_mut += 1
+            ctx.report("information_weight / InformationWeightTransformer.fit changed the caller's matrix in place (property C13): "
+                       + " | ".join(notes["caller_modified"][:3]),
+                       {"stage": "caller-data", "case": c, "modified": notes["caller_modified"][:10]}, found_input=False)
         n_corr += 1
         cb = correspondence(c, r, m, notes)
         if cb:
             corr_bad.append((c, r, cb))
     ctx.coverage["correspondence"] = {"cases": n_corr, "disagreements": len(corr_bad),
                                       "model": "Model/K13_InfoWeight.v over Model/K12_Float.v + Model/K13_Float.v (binary64) via vm_compute"}
-    ctx.coverage["oracle"] = {"cases": len(cases), "failing": n_bad, "zero_information_matrices": n_deg, "duplicate_entry_stream": n_dup}
+    ctx.coverage["oracle"] = {"cases": len(cases), "failing": n_bad, "zero_information_matrices": n_deg, "cases_with_duplicate_coordinates": n_dup,
+                              "cases_where_the_callers_matrix_was_modified": n_mut}
     ctx.coverage["traces_validated_against_impl"] = n_corr
     if corr_bad and not any(v["found_input"] for v in ctx.violations):
         c, r, cb = corr_bad[0]
